@@ -368,6 +368,16 @@ def gen_spec_case(rng):
     real = [dy(rng, -4, 4, 8) for _ in range(N)]
     if rng.below(8) == 0 and kind != 3:
         ens = [list(real) for _ in range(E)]  # zero-when-equal instance
+    elif kind >= 2 and rng.below(3) == 0:
+        # series at a level that is large relative to the spread of the ensemble, members that nearly coincide (all values
+        # dyadic, so that the moments are exact up to one rounding): E[m^2] - E[m]^2 style shortcuts lose everything here,
+        # the definition mean_j (r - s_j)^2 loses nothing
+        base = [64.0 + dy(rng, -4, 4, 8) for _ in range(N)]
+        ens = [[b + rng.randint(-2, 2) / 256.0 for b in base] for _ in range(E)]
+        real = [b + rng.randint(-3, 3) / 256.0 for b in base]   # the data are as close to the members as they are to each other
+        # measured: the definition evaluated in binary64 is within 4e-12 (relative) of the exact value on these data, a one-pass
+        # variance is off by 2e-9 and more
+        return {"part": "spec", "kind": kind, "ens": ens, "real": real, "rtol": 1e-10, "style": "near-coincident"}
     return {"part": "spec", "kind": kind, "ens": ens, "real": real}
 
 
@@ -389,7 +399,7 @@ def run_spec(case):
 def emit_spec(case, obs):
     v = obs["v"]
     scale = v * v if case["kind"] == 1 else abs(v)
-    tol = 1e-11 * (1.0 + scale)
+    tol = case.get("rtol", 1e-11) * (1.0 + scale)
     return f"({cnat(case['kind'])}, {clist([cser(s) for s in case['ens']])}, {cser(case['real'])}, {cq(v)}, {cq(tol)})"
 
 
@@ -752,6 +762,46 @@ def case_key(case):
     return json.dumps(case, sort_keys=True, default=str)
 
 
+def illconditioned_nonneg(chk, dist):
+    """Non-negativity where it is numerically hard: series at a large level, ensemble members that nearly coincide (the
+    inverse-variance weights 1/mean_j (r - s_j)^2 are sums of squares, so are the Minkowski / Fourier / identity-MSM values:
+    none of them may come out negative, whatever the rounding)."""
+    from black_it.loss_functions.fourier import FourierLoss
+    from black_it.loss_functions.minkowski import MinkowskiLoss
+    from black_it.loss_functions.msm import MethodOfMomentsLoss
+
+    rng = chk.rng
+    np_rng = np.random.default_rng(rng.below(2**31))
+    n = 0
+    mk = {"msm_invvar_default": lambda: MethodOfMomentsLoss(covariance_mat="inverse_variance"),
+          "msm_invvar_custom": lambda: MethodOfMomentsLoss(covariance_mat="inverse_variance", moment_calculator=custom_moments),
+          "msm_identity_default": lambda: MethodOfMomentsLoss(covariance_mat="identity"),
+          "minkowski_p2": lambda: MinkowskiLoss(p=2), "fourier_gauss": lambda: FourierLoss()}
+    for i in range(40 if chk.tier == "quick" else 400):
+        kind = sorted(mk)[i % len(mk)] if i % 2 else "msm_invvar_default"
+        level = rng.choice([1e4, 1e6, 1e8, 1e8])
+        jitter = rng.choice([1e-3, 1e-5, 1e-2])
+        E, N = rng.randint(2, 3), rng.randint(30, 60)
+        base = level + np.cumsum(np_rng.standard_normal(N))
+        sim = np.stack([base + jitter * np_rng.standard_normal(N) for _ in range(E)])[:, :, None]
+        real = (base + rng.uniform(0.0, 3.0))[:, None]
+        try:
+            v = float(mk[kind]().compute_loss(sim, real))
+        except Exception as e:  # noqa: BLE001
+            chk.violation({"kind": "builtin", "loss": kind, "relation": "exception"},
+                          {"failed": f"oracle:unexpected exception {type(e).__name__}: {e}",
+                           "case": {"illconditioned": {"kind": kind, "level": level, "jitter": jitter, "E": E, "N": N}}})
+            continue
+        n += 1
+        dist["relation:nonneg_illconditioned"] += 1
+        if np.isfinite(v) and v < 0.0:
+            chk.violation({"kind": "builtin", "loss": kind, "relation": "nonneg"},
+                          {"failed": f"oracle:nonneg: value {v!r} < 0 for series at level {level:g} whose {E} ensemble members differ by {jitter:g}",
+                           "case": {"illconditioned": {"kind": kind, "level": level, "jitter": jitter, "E": E, "N": N,
+                                                       "sim": sim.tolist(), "real": real.tolist()}}})
+    return n
+
+
 def run(chk, replay=None):
     warnings.filterwarnings("ignore")
     chk.proof_gate()
@@ -821,6 +871,8 @@ def run(chk, replay=None):
                        "case": spec[i], "observed": sobs[i], "coq_case": slits[b]}, no_input=True)
     for c in spec:
         dist[f"spec:kind={c['kind']}"] += 1
+        if c.get("style"):
+            dist[f"spec:{c['style']}"] += 1
     validated += len(keep) - len(sbad)
     errors += serrors
 
@@ -857,6 +909,8 @@ def run(chk, replay=None):
             samples.append({"case": {k: c[k] for k in ("kind", "D", "E", "N", "weights", "filters")}, "value": info.get("value")})
     for e in errors:
         chk.violation({"kind": "correspondence", "name": "coqc"}, {"failed": "correspondence:coqc", "detail": e}, no_input=True)
+    if not replay:
+        relations += illconditioned_nonneg(chk, dist)
 
     cov = {
         "evaluations": relations,
